@@ -381,6 +381,42 @@ def kwpair_run(verif_seed, index, stratum="kwpairs"):
     return _drive(spec, A, stratum, index, producer, ref_mode_for(rng))
 
 
+# ---------------------------------- several crystals writing one shared file
+SHF_SAVE = ["sl_res", "sl_cif", "sl_poscar"]
+SHF_FORK = ["deepcopy", "stranger", "reload"]
+SHF_MUT = ["normH", "switch"]
+N_SHAREDFILE = 2 * len(SHF_SAVE) * len(SHF_FORK) * len(SHF_MUT) * 2
+
+
+def sharedfile_run(verif_seed, index, stratum="sharedfile"):
+    """Two crystal objects take turns saving to the SAME path (as a user does
+    who keeps overwriting structure.res): save A, fork, change B, save B,
+    save A again, save B again - every saved file must be what a fresh crystal
+    with that state would have written and must load back accordingly."""
+    rng = random.Random(run_seed(verif_seed, stratum, index))
+    i = index % N_SHAREDFILE
+    i, rel = divmod(i, 2)
+    i, m = divmod(i, len(SHF_MUT))
+    i, f = divmod(i, len(SHF_FORK))
+    i, sv = divmod(i, len(SHF_SAVE))
+    spec = FORK3_SOURCES[i % 2]
+    A = gen_args(rng)
+    A["shared_dir"], A["relative"] = True, bool(rel)
+    save, fork, mut = SHF_SAVE[sv], SHF_FORK[f], SHF_MUT[m]
+    state = {"rest": None}
+
+    def producer(sim, fb):
+        if state["rest"] is None:
+            choice = sim.world[0].space_group.choice
+            change = "normH" if mut == "normH" else ("toR" if choice == "H" else "toH")
+            steps = [{"h": 0, "op": save}, {"h": 0, "op": fork}, {"h": 1, "op": change}, {"h": 1, "op": save},
+                     {"h": 0, "op": save}, {"h": 1, "op": save}, {"h": 0, "op": "res"}, {"h": 1, "op": "res"}]
+            state["rest"] = iter(steps)
+        return next(state["rest"], None)
+
+    return _drive(spec, A, stratum, index, producer, ref_mode_for(rng))
+
+
 # ------------------------------------------------ a large derived crystal
 BIG_FIRST = [None, "uc_atoms", "uc_mols"]
 BIG_MID = [None, "normH"]
